@@ -18,6 +18,7 @@ void* allocMemoryPages(size_t bytes)
 __CPROVER_requires(bytes > 0 && bytes < ((size_t)1 << 40))
 __CPROVER_assigns(RXV_VMEM_GHOST)
 __CPROVER_ensures(rxv_wx_requests == __CPROVER_old(rxv_wx_requests))
+__CPROVER_ensures(rxv_unmaps == __CPROVER_old(rxv_unmaps) && rxv_unmapped_bytes == __CPROVER_old(rxv_unmapped_bytes))   /* an allocation releases nothing */
 __CPROVER_ensures(__CPROVER_return_value == NULL
 	? (rxv_maps == __CPROVER_old(rxv_maps))
 	: (rxv_prot == (RXV_PROT_R | RXV_PROT_W) && rxv_maps == __CPROVER_old(rxv_maps) + 1
@@ -27,6 +28,7 @@ void* allocLargePagesMemory(size_t bytes)
 __CPROVER_requires(bytes > 0 && bytes < ((size_t)1 << 40))
 __CPROVER_assigns(RXV_VMEM_GHOST)
 __CPROVER_ensures(rxv_wx_requests == __CPROVER_old(rxv_wx_requests))
+__CPROVER_ensures(rxv_unmaps == __CPROVER_old(rxv_unmaps) && rxv_unmapped_bytes == __CPROVER_old(rxv_unmapped_bytes))   /* an allocation releases nothing */
 __CPROVER_ensures(__CPROVER_return_value == NULL
 	? (rxv_maps == __CPROVER_old(rxv_maps))
 	: (rxv_prot == (RXV_PROT_R | RXV_PROT_W) && rxv_maps == __CPROVER_old(rxv_maps) + 1
